@@ -1207,10 +1207,81 @@ fn run_sequential(args: &Args, rec: &mut Recorder) {
 // ---------------------------------------------------------------------------------------------
 // stream 6: concurrent appends through ConcurrentLogBuilder<File>
 
+/// In-process observation of durability: the harness binary defines `fdatasync` itself, so the
+/// call `FsyncCoalescingCore::work` makes through the libc crate lands here (the static link
+/// resolves the executable's own symbol first).  For the watched descriptor it notes how long the
+/// file was when the call was ISSUED, makes the real system call, and publishes that length as
+/// durable only when the call has returned: an fdatasync promises nothing about bytes written after
+/// it was issued.  It can hold one call open after the system call (a slow device), which lets a
+/// directed scenario queue other callers behind the fsync leader.  Every other descriptor is passed
+/// straight through.
+mod sync_probe {
+    use std::sync::atomic::{AtomicBool, AtomicI32, AtomicU64, Ordering::SeqCst};
+    pub static WATCH_FD: AtomicI32 = AtomicI32::new(-1);
+    pub static DURABLE_LEN: AtomicU64 = AtomicU64::new(0);
+    pub static CALLS: AtomicU64 = AtomicU64::new(0);
+    pub static HOLD_NEXT: AtomicBool = AtomicBool::new(false);
+    pub static HELD: AtomicBool = AtomicBool::new(false);
+    pub static RELEASE: AtomicBool = AtomicBool::new(false);
+
+    fn len_of(fd: i32) -> u64 {
+        unsafe {
+            let mut st: libc::stat = std::mem::zeroed();
+            if libc::fstat(fd, &mut st) == 0 { st.st_size as u64 } else { 0 }
+        }
+    }
+
+    #[no_mangle]
+    pub extern "C" fn fdatasync(fd: libc::c_int) -> libc::c_int {
+        if fd < 0 || fd != WATCH_FD.load(SeqCst) {
+            return unsafe { libc::syscall(libc::SYS_fdatasync, fd) as libc::c_int };
+        }
+        let len_when_issued = len_of(fd);
+        CALLS.fetch_add(1, SeqCst);
+        let ret = unsafe { libc::syscall(libc::SYS_fdatasync, fd) as libc::c_int };
+        if HOLD_NEXT.swap(false, SeqCst) {
+            HELD.store(true, SeqCst);
+            let t0 = std::time::Instant::now();
+            while !RELEASE.load(SeqCst) && t0.elapsed() < std::time::Duration::from_secs(20) {
+                std::thread::sleep(std::time::Duration::from_micros(200));
+            }
+            HELD.store(false, SeqCst);
+        }
+        if ret == 0 {
+            DURABLE_LEN.fetch_max(len_when_issued, SeqCst);
+        }
+        ret
+    }
+
+    pub fn watch(fd: i32) {
+        WATCH_FD.store(fd, SeqCst);
+        DURABLE_LEN.store(0, SeqCst);
+        CALLS.store(0, SeqCst);
+        HOLD_NEXT.store(false, SeqCst);
+        HELD.store(false, SeqCst);
+        RELEASE.store(false, SeqCst);
+    }
+}
+use std::sync::atomic::Ordering::SeqCst;
+
 struct ConcPlan {
     threads: Vec<Vec<Batch>>,
+    /// free-running plans: thread `t` calls `ConcurrentLogBuilder::fsync()` before its batch `i`
+    fsync_before: Vec<Vec<bool>>,
+    /// free-running plans: extra threads that only call `fsync()` this many times
+    fsync_only: Vec<usize>,
+    /// 0 = free running; 1 = an append and then an `fsync()` caller queue behind a held fsync
+    /// leader; 2 = the same with an earlier completed append and two appends before the caller
+    directed: u8,
     wb: Option<usize>,
     desc: String,
+}
+
+fn conc_entry(rng: &mut Rng, t: usize, b: usize, j: usize, put: bool, vlen: usize) -> Ent {
+    let mut key = vec![t as u8, b as u8, j as u8];
+    let extra = rng.below(4) as usize;
+    key.extend(rng.bytes(extra));
+    Ent { put, key: Bs::Lit(key), ts: ts_with_len(*rng.pick(&[1usize, 2, 5]), rng), val: if put { Bs::Gen(1 + rng.below(1 << 30), vlen) } else { Bs::Gen(0, 0) } }
 }
 
 fn conc_plan(seed: u64, i: u64, thorough: bool) -> ConcPlan {
@@ -1228,18 +1299,36 @@ fn conc_plan(seed: u64, i: u64, thorough: bool) -> ConcPlan {
             for j in 0..ne {
                 let put = heavy || rng.chance(3, 4);
                 let vlen = if heavy { rng.range(20000, 32768) as usize } else if medium && rng.chance(1, 2) { rng.range(1000, 32768) as usize } else { rng.below(60) as usize };
-                let mut key = vec![t as u8, b as u8, j as u8];
-                let extra = rng.below(4) as usize;
-                key.extend(rng.bytes(extra));
-                batch.push(Ent { put, key: Bs::Lit(key), ts: ts_with_len(*rng.pick(&[1usize, 2, 5]), &mut rng), val: if put { Bs::Gen(1 + rng.below(1 << 30), vlen) } else { Bs::Gen(0, 0) } });
+                batch.push(conc_entry(&mut rng, t, b, j, put, vlen));
             }
             bs.push(batch);
         }
         threads.push(bs);
     }
     let wb = if rng.chance(1, 3) { Some(*rng.pick(&[1usize, 64, 4096])) } else { None };
-    let desc = format!("threads={} per={} {}", nt, per, if heavy { "heavy" } else if medium { "medium" } else { "light" });
-    ConcPlan { threads, wb, desc }
+    // `fsync()` callers among the appenders (they submit watermark 0 to the fsync queue)
+    let with_fsyncs = !heavy && rng.chance(2, 3);
+    let fsync_before: Vec<Vec<bool>> = threads.iter().map(|bs| bs.iter().map(|_| with_fsyncs && rng.chance(1, 3)).collect()).collect();
+    let fsync_only: Vec<usize> = if with_fsyncs { (0..rng.below(3)).map(|_| 1 + rng.below(2 * per as u64) as usize).collect() } else { vec![] };
+    let desc = format!("threads={} per={} {} fsync_calls={}", nt, per, if heavy { "heavy" } else if medium { "medium" } else { "light" },
+        fsync_before.iter().flatten().filter(|x| **x).count() + fsync_only.iter().sum::<usize>());
+    ConcPlan { threads, fsync_before, fsync_only, directed: 0, wb, desc }
+}
+
+/// the two directed schedules (thread 0 = A, the held fsync leader; threads 1, 2 = the appends
+/// that must be durable on return; thread 3 = P, a completed earlier append, kind 2 only)
+fn directed_plan(seed: u64, i: u64, kind: u8) -> ConcPlan {
+    let mut rng = Rng::for_case(seed, 7, i);
+    let nt = if kind == 2 { 4 } else { 2 };
+    let mut threads = vec![];
+    for t in 0..nt {
+        let ne = 1 + rng.below(4) as usize;
+        let vmax = *rng.pick(&[40u64, 300, 5000]);
+        threads.push(vec![(0..ne).map(|j| { let v = rng.below(vmax) as usize; conc_entry(&mut rng, t, 0, j, true, v) }).collect::<Batch>()]);
+    }
+    let fsync_before = threads.iter().map(|b| vec![false; b.len()]).collect();
+    ConcPlan { threads, fsync_before, fsync_only: vec![], directed: kind, wb: None,
+        desc: if kind == 1 { "directed: append, then fsync() caller, behind a held fsync leader".into() } else { "directed: earlier append done; two appends, then fsync() caller, behind a held fsync leader".into() } }
 }
 
 #[derive(Clone, Debug)]
@@ -1249,11 +1338,17 @@ struct Ret {
     res: String,
     snap_len: usize,
     snap_fnv: u64,
+    /// the largest file length covered by an fdatasync that had returned when the call returned
+    durable: u64,
 }
 
 struct ConcRun {
     rets: Vec<Ret>,
     seal: String,
+    /// free text about `fsync()` calls that failed, schedules that were not reached, ...
+    notes: Vec<String>,
+    /// directed plans: the intended queue order was reached
+    conclusive: bool,
 }
 
 fn marker(fd: Option<i32>, s: &str) {
@@ -1264,60 +1359,222 @@ fn marker(fd: Option<i32>, s: &str) {
     }
 }
 
-fn conc_execute(plan: &ConcPlan, path: &str, mfd: Option<i32>) -> Result<ConcRun, String> {
+fn open_log(plan: &ConcPlan, path: &str) -> Result<ConcurrentLogBuilder<std::fs::File>, String> {
+    use std::os::fd::AsRawFd;
     let _ = std::fs::remove_file(path);
+    let file = std::fs::OpenOptions::new().create_new(true).read(true).write(true).open(path).map_err(|e| format!("open:{}", e))?;
+    sync_probe::watch(file.as_raw_fd());
+    ConcurrentLogBuilder::from_write(mk_opts(None, plan.wb), file).map_err(|e| format!("open:{}", code(&e)))
+}
+
+/// one append with its markers and what is observed the moment it has returned
+fn one_append(clb: &ConcurrentLogBuilder<std::fs::File>, path: &str, mfd: Option<i32>, t: usize, i: usize, wb: Result<WriteBatch, String>) -> Ret {
+    let res = match wb {
+        Ok(wb) => {
+            marker(mfd, &format!("B {} {}\n", t, i));
+            let r = clb.append(wb);
+            marker(mfd, &format!("R {} {}\n", t, i));
+            match r {
+                Ok(()) => "ok".to_string(),
+                Err(e) => code(&e),
+            }
+        }
+        Err(m) => format!("batch:{}", m),
+    };
+    let durable = sync_probe::DURABLE_LEN.load(SeqCst);
+    // what the file holds at the moment the call has returned
+    let snap = std::fs::read(path).unwrap_or_default();
+    Ret { t, i, res, snap_len: snap.len(), snap_fnv: fnv(&snap), durable }
+}
+
+fn conc_execute(plan: &ConcPlan, path: &str, mfd: Option<i32>) -> Result<ConcRun, String> {
+    if plan.directed != 0 {
+        return conc_execute_directed(plan, path, mfd);
+    }
     guarded(std::panic::AssertUnwindSafe(|| {
-        let clb = match ConcurrentLogBuilder::new(mk_opts(None, plan.wb), path) {
+        let clb = match open_log(plan, path) {
             Ok(c) => c,
-            Err(e) => return ConcRun { rets: vec![], seal: format!("open:{}", code(&e)) },
+            Err(e) => return ConcRun { rets: vec![], seal: e, notes: vec![], conclusive: true },
         };
-        let barrier = std::sync::Barrier::new(plan.threads.len());
+        let barrier = std::sync::Barrier::new(plan.threads.len() + plan.fsync_only.len());
         let mut rets: Vec<Ret> = vec![];
+        let notes = std::sync::Mutex::new(Vec::<String>::new());
         std::thread::scope(|s| {
             let hs: Vec<_> = plan
                 .threads
                 .iter()
                 .enumerate()
                 .map(|(t, bs)| {
-                    let clb = &clb;
-                    let barrier = &barrier;
+                    let (clb, barrier, notes) = (&clb, &barrier, &notes);
                     s.spawn(move || {
                         let built: Vec<Result<WriteBatch, String>> = bs.iter().map(build_batch).collect();
                         barrier.wait();
                         let mut out = vec![];
                         for (i, wb) in built.into_iter().enumerate() {
-                            let res = match wb {
-                                Ok(wb) => {
-                                    marker(mfd, &format!("B {} {}\n", t, i));
-                                    let r = clb.append(wb);
-                                    marker(mfd, &format!("R {} {}\n", t, i));
-                                    match r {
-                                        Ok(()) => "ok".to_string(),
-                                        Err(e) => code(&e),
-                                    }
+                            if plan.fsync_before[t][i] {
+                                if let Err(e) = clb.fsync() {
+                                    notes.lock().unwrap().push(format!("fsync() by thread {} failed: {}", t, code(&e)));
                                 }
-                                Err(m) => format!("batch:{}", m),
-                            };
-                            // what the file holds at the moment the call has returned
-                            let snap = std::fs::read(path).unwrap_or_default();
-                            out.push(Ret { t, i, res, snap_len: snap.len(), snap_fnv: fnv(&snap) });
+                            }
+                            out.push(one_append(clb, path, mfd, t, i, wb));
                         }
                         out
+                    })
+                })
+                .collect();
+            let fs: Vec<_> = plan
+                .fsync_only
+                .iter()
+                .map(|n| {
+                    let (clb, barrier, notes) = (&clb, &barrier, &notes);
+                    s.spawn(move || {
+                        barrier.wait();
+                        for _ in 0..*n {
+                            if let Err(e) = clb.fsync() {
+                                notes.lock().unwrap().push(format!("fsync() failed: {}", code(&e)));
+                            }
+                            std::thread::yield_now();
+                        }
                     })
                 })
                 .collect();
             for (t, h) in hs.into_iter().enumerate() {
                 match h.join() {
                     Ok(v) => rets.extend(v),
-                    Err(_) => rets.push(Ret { t, i: usize::MAX, res: "panic".into(), snap_len: 0, snap_fnv: 0 }),
+                    Err(_) => rets.push(Ret { t, i: usize::MAX, res: "panic".into(), snap_len: 0, snap_fnv: 0, durable: 0 }),
+                }
+            }
+            for h in fs {
+                if h.join().is_err() {
+                    notes.lock().unwrap().push("fsync() caller panicked".into());
                 }
             }
         });
+        sync_probe::WATCH_FD.store(-1, SeqCst);
         let seal = match clb.seal() {
             Ok((s, _file)) => s.hexdigest(),
             Err(e) => format!("seal:{}", code(&e)),
         };
-        ConcRun { rets, seal }
+        ConcRun { rets, seal, notes: notes.into_inner().unwrap(), conclusive: true }
+    }))
+}
+
+/// poll the sync42 event log until `pred(all events so far)` or the deadline
+fn wait_events(seen: &mut Vec<(u64, u64, &'static str, [u64; 3])>, ms: u64, pred: impl Fn(&[(u64, u64, &'static str, [u64; 3])]) -> bool) -> bool {
+    let t0 = std::time::Instant::now();
+    loop {
+        seen.extend(sync42::verif::take_events());
+        if pred(seen) {
+            return true;
+        }
+        if t0.elapsed() > std::time::Duration::from_millis(ms) {
+            return false;
+        }
+        std::thread::sleep(std::time::Duration::from_micros(300));
+    }
+}
+
+fn wait_flag(ms: u64, f: impl Fn() -> bool) -> bool {
+    let t0 = std::time::Instant::now();
+    while !f() {
+        if t0.elapsed() > std::time::Duration::from_millis(ms) {
+            return false;
+        }
+        std::thread::sleep(std::time::Duration::from_micros(300));
+    }
+    true
+}
+
+/// The schedules that expose an fsync core which loses the high-water mark of its batch:
+///   kind 1:  A appends and, as fsync leader, is held inside fdatasync (after the system call).
+///            Y appends: its bytes reach the file after A's fdatasync was issued; Y parks behind A.
+///            F calls `fsync()` (watermark 0) and parks behind Y.  A is released; Y leads {Y, F}.
+///   kind 2:  P appends and completes first (so `synced > 0`), then as kind 1 with two appenders
+///            Y1, Y2 parked behind A before F: Y1 leads {Y1, Y2, F}.
+/// In both, the appends behind A may return only after an fdatasync issued after their writes
+/// returned.  Every step waits for an observable condition (the probe's HELD flag, `wcq.park`
+/// events of the sync42 hooks): no timing assumption.  The oracle (durable length at return >=
+/// end of the caller's frame) is a property of every schedule; the script only makes the
+/// interesting one happen, and says whether it did (`conclusive`).
+/// (An older appender stalled between the write queue and the fsync queue would be a third way to
+/// put a stale watermark last; the only pause point there, the end of `do_work`, still holds the
+/// write core's lock, so it cannot be staged with the present hooks.)
+fn conc_execute_directed(plan: &ConcPlan, path: &str, mfd: Option<i32>) -> Result<ConcRun, String> {
+    let park_count = |ev: &[(u64, u64, &'static str, [u64; 3])]| ev.iter().filter(|e| e.2 == "wcq.park").count();
+    guarded(std::panic::AssertUnwindSafe(|| {
+        let mut notes: Vec<String> = vec![];
+        let clb = match open_log(plan, path) {
+            Ok(c) => c,
+            Err(e) => return ConcRun { rets: vec![], seal: e, notes, conclusive: false },
+        };
+        let _ = sync42::verif::take_events();
+        sync42::verif::events_enable(true);
+        let mut seen = vec![];
+        let mut ok = true;
+        let mut rets: Vec<Ret> = vec![];
+        let n_y = if plan.directed == 2 { 2 } else { 1 };
+        std::thread::scope(|s| {
+            let clb = &clb;
+            let spawn_append = |t: usize| {
+                let wb = build_batch(&plan.threads[t][0]);
+                s.spawn(move || one_append(clb, path, mfd, t, 0, wb))
+            };
+            let mut handles = vec![];
+            if plan.directed == 2 {
+                // P: a completed append, so that the core's `synced` is not zero
+                match spawn_append(3).join() {
+                    Ok(r) => rets.push(r),
+                    Err(_) => ok = false,
+                }
+            }
+            sync_probe::HOLD_NEXT.store(true, SeqCst);
+            handles.push(spawn_append(0));
+            ok &= wait_flag(10000, || sync_probe::HELD.load(SeqCst));
+            seen.extend(sync42::verif::take_events());
+            let parked_before = park_count(&seen);
+            for k in 0..n_y {
+                handles.push(spawn_append(1 + k));
+                ok &= wait_events(&mut seen, 10000, |ev| park_count(ev) >= parked_before + 1 + k);
+            }
+            let f = s.spawn(move || clb.fsync().map_err(|e| code(&e)));
+            ok &= wait_events(&mut seen, 10000, |ev| park_count(ev) >= parked_before + 1 + n_y);
+            sync_probe::RELEASE.store(true, SeqCst);
+            for h in handles {
+                match h.join() {
+                    Ok(r) => rets.push(r),
+                    Err(_) => rets.push(Ret { t: 9, i: usize::MAX, res: "panic".into(), snap_len: 0, snap_fnv: 0, durable: 0 }),
+                }
+            }
+            match f.join() {
+                Ok(Ok(())) => {}
+                Ok(Err(c)) => notes.push(format!("fsync() failed: {}", c)),
+                Err(_) => notes.push("fsync() caller panicked".into()),
+            }
+        });
+        sync42::verif::events_enable(false);
+        seen.extend(sync42::verif::take_events());
+        // the first appender behind A led the whole rest of the queue in one batch (the write queue
+        // never holds more than one caller here).  Threads in order of appearance: [P,] A, Y1, ...
+        let mut order: Vec<u64> = vec![];
+        for e in &seen {
+            if !order.contains(&e.1) {
+                order.push(e.1);
+            }
+        }
+        let y_thread = order.get(if plan.directed == 2 { 2 } else { 1 }).copied().unwrap_or(0);
+        ok &= seen.iter().any(|e| e.2 == "wcq.lead" && e.3[1] as usize == n_y + 1 && e.1 == y_thread);
+        if !ok {
+            notes.push("intended queue order not reached".into());
+            if std::env::var("C12_DEBUG").is_ok() {
+                eprintln!("directed kind {}: events {:?}", plan.directed, seen.iter().map(|e| format!("{}:{}{:?}", e.1, e.2, e.3)).collect::<Vec<_>>());
+            }
+        }
+        sync_probe::WATCH_FD.store(-1, SeqCst);
+        let seal = match clb.seal() {
+            Ok((s, _file)) => s.hexdigest(),
+            Err(e) => format!("seal:{}", code(&e)),
+        };
+        ConcRun { rets, seal, notes, conclusive: ok }
     }))
 }
 
@@ -1468,6 +1725,22 @@ fn conc_analyse(rec: &mut Recorder, plan: &ConcPlan, path: &str, run: &ConcRun, 
         if r.snap_len > bytes.len() || fnv(&bytes[..r.snap_len]) != r.snap_fnv {
             fails.push(format!("file at return of {}/{} is not a prefix of the final file", r.t, r.i));
         }
+        // durability, observed in-process: an fdatasync ISSUED when the file already held the
+        // caller's frame had RETURNED when the call returned
+        match end_of.get(&(r.t, r.i)) {
+            Some(e) if (r.durable as usize) < *e => fails.push(format!(
+                "append {}/{} returned with fdatasync coverage up to byte {} only, its frame ends at {} (no fdatasync was issued after its write)", r.t, r.i, r.durable, e)),
+            Some(_) => rec.count("conc.appends_durable_at_return_in_process_probe"),
+            None => {}
+        }
+    }
+    for n in &run.notes {
+        if n.contains("fsync()") {
+            fails.push(n.clone());
+        }
+    }
+    if plan.directed != 0 {
+        rec.count(&format!("conc.directed.kind{}.{}", plan.directed, if run.conclusive { "schedule_reached" } else { "schedule_not_reached" }));
     }
     let kvs: Vec<Kv> = plan.threads.iter().flatten().flatten().map(|e| e.kv()).collect();
     if run.seal != expected_setsum(&kvs) {
@@ -1476,6 +1749,11 @@ fn conc_analyse(rec: &mut Recorder, plan: &ConcPlan, path: &str, run: &ConcRun, 
     // strace: an fdatasync of the log that started after the caller's bytes were written and
     // finished before the call returned
     if let Some(tr) = trace {
+        // a directed plan that was run twice: only the last attempt wrote the file
+        let tr = match tr.rfind("\"RESET\\n\"") {
+            Some(p) => &tr[p..],
+            None => tr,
+        };
         let sys = parse_strace(tr, path);
         let mut cum = 0usize;
         let mut writes: Vec<(usize, usize)> = vec![]; // (exit line, cumulative bytes)
@@ -1530,11 +1808,26 @@ fn conc_analyse(rec: &mut Recorder, plan: &ConcPlan, path: &str, run: &ConcRun, 
     ConcOutcome { req, obs, verdict }
 }
 
+/// plan number `i` of a run: free-running plans first, then the directed ones
+fn plan_of(seed: u64, i: u64, thorough: bool) -> ConcPlan {
+    let (n_free, _, _) = conc_counts(thorough);
+    if i < n_free {
+        conc_plan(seed, i, thorough)
+    } else {
+        directed_plan(seed, i, 1 + ((i - n_free) % 2) as u8)
+    }
+}
+
+/// (free-running plans, directed plans, how many of each group run under strace)
+fn conc_counts(thorough: bool) -> (u64, u64, u64) {
+    if thorough { (140, 24, 40) } else { (18, 6, 4) }
+}
+
 fn conc_child(args: &Args) {
     // blueharness C12 --seed S --tier T --conc-child <index> <log path> <rets path>
     let i: u64 = args.rest[1].parse().unwrap();
     let path = &args.rest[2];
-    let plan = conc_plan(args.seed, i, args.thorough);
+    let plan = plan_of(args.seed, i, args.thorough);
     let null = std::ffi::CString::new("/dev/null").unwrap();
     let fd = unsafe { libc::open(null.as_ptr(), libc::O_WRONLY) };
     let run = conc_execute(&plan, path, Some(fd));
@@ -1542,8 +1835,12 @@ fn conc_child(args: &Args) {
     match run {
         Ok(r) => {
             for x in &r.rets {
-                s.push_str(&format!("ret {} {} {} {} {}\n", x.t, x.i, x.res, x.snap_len, x.snap_fnv));
+                s.push_str(&format!("ret {} {} {} {} {} {}\n", x.t, x.i, x.res, x.snap_len, x.snap_fnv, x.durable));
             }
+            for n in &r.notes {
+                s.push_str(&format!("note {}\n", n.replace('\n', " ")));
+            }
+            s.push_str(&format!("conclusive {}\n", r.conclusive));
             s.push_str(&format!("seal {}\n", r.seal));
         }
         Err(m) => s.push_str(&format!("panic {}\n", m.replace('\n', " "))),
@@ -1553,23 +1850,27 @@ fn conc_child(args: &Args) {
 
 fn run_concurrent(args: &Args, rec: &mut Recorder, dir: &str) {
     let th = args.thorough;
-    let n_inproc = if th { 100 } else { 14 };
-    let n_strace = if th { 40 } else { 4 };
+    let (n_free, n_dir, n_traced) = conc_counts(th);
     let have_strace = std::process::Command::new("strace").arg("-V").output().map(|o| o.status.success()).unwrap_or(false);
     if !have_strace {
         rec.count("conc.strace_unavailable");
     }
-    for i in 0..(n_inproc + n_strace) {
+    for i in 0..(n_free + n_dir) {
         if !rec.wants() {
             rec.skip();
             continue;
         }
-        let traced = i >= n_inproc && have_strace;
-        let plan = conc_plan(args.seed, i, th);
+        // the last `n_traced` free-running plans and the last two directed ones run in a child
+        // under strace; all others in this process (the fdatasync probe observes both)
+        let traced = have_strace && ((i < n_free && i >= n_free - n_traced) || i >= n_free + n_dir - 2);
+        let plan = plan_of(args.seed, i, th);
         let path = format!("{}/conc-{}.log", dir, i);
-        let nt = Some(fnv(format!("conc {} {}", i, plan.threads.iter().flatten().map(|b| groups_tok(&[vec![b.clone()]])).collect::<Vec<_>>().join(" ")).as_bytes()));
+        let nt = Some(fnv(format!("conc {} {} {}", i, plan.desc, plan.threads.iter().flatten().map(|b| groups_tok(&[vec![b.clone()]])).collect::<Vec<_>>().join(" ")).as_bytes()));
         rec.count(if traced { "conc.runs_under_strace" } else { "conc.runs_in_process" });
-        rec.count(&format!("conc.threads_{}", plan.threads.len()));
+        if plan.directed == 0 {
+            rec.count(&format!("conc.threads_{}", plan.threads.len()));
+            rec.add("conc.fsync_calls_interleaved", (plan.fsync_before.iter().flatten().filter(|x| **x).count() + plan.fsync_only.iter().sum::<usize>()) as u64);
+        }
         let (run, trace) = if traced {
             let rets = format!("{}/rets-{}.txt", dir, i);
             let tr = format!("{}/trace-{}.txt", dir, i);
@@ -1580,13 +1881,15 @@ fn run_concurrent(args: &Args, rec: &mut Recorder, dir: &str) {
                 .args(["C12", "--seed", &args.seed.to_string(), "--tier", if th { "thorough" } else { "quick" }, "--conc-child", &i.to_string(), &path, &rets])
                 .status();
             let text = std::fs::read_to_string(&rets).unwrap_or_default();
-            let mut run = ConcRun { rets: vec![], seal: String::new() };
+            let mut run = ConcRun { rets: vec![], seal: String::new(), notes: vec![], conclusive: true };
             let mut panic = None;
             for l in text.lines() {
                 let t: Vec<&str> = l.split(' ').collect();
                 match t[0] {
-                    "ret" if t.len() == 6 => run.rets.push(Ret { t: t[1].parse().unwrap(), i: t[2].parse().unwrap_or(usize::MAX), res: t[3].into(), snap_len: t[4].parse().unwrap(), snap_fnv: t[5].parse().unwrap() }),
+                    "ret" if t.len() == 7 => run.rets.push(Ret { t: t[1].parse().unwrap(), i: t[2].parse().unwrap_or(usize::MAX), res: t[3].into(), snap_len: t[4].parse().unwrap(), snap_fnv: t[5].parse().unwrap(), durable: t[6].parse().unwrap() }),
                     "seal" => run.seal = t.get(1).unwrap_or(&"").to_string(),
+                    "note" => run.notes.push(t[1..].join(" ")),
+                    "conclusive" => run.conclusive = t.get(1) == Some(&"true"),
                     "panic" => panic = Some(l.to_string()),
                     _ => {}
                 }
@@ -1624,7 +1927,7 @@ pub fn run(args: &Args) {
     run_concurrent(args, &mut rec, &dir);
     let _ = std::fs::remove_dir_all(&dir);
     rec.finish(
-        "six seeded streams: small batch sequences; >=1 MiB files whose frames end 0..21 bytes before a block boundary / on it / 1..24 and many bytes past it, tiny (8-byte) and maximal (MAX_BATCH_SIZE-1..BLOCK_SIZE) batches; every truncation of small files; every cut within +-64 (thorough +-96) bytes of every frame/header/padding/block boundary near the block boundary of >=1 MiB files; header/length/padding mutations of small files (reader correspondence only); 2..8 threads through ConcurrentLogBuilder on a real file, some under strace. Non-trivial = a sequence of >= 2 appends, any boundary/truncation/mutation case, any concurrent run; distinct by request text (concurrent runs: by plan, since the grouping into frames is schedule dependent; counters named conc.sched.* vary between runs of one seed)",
+        "six seeded streams: small batch sequences; >=1 MiB files whose frames end 0..21 bytes before a block boundary / on it / 1..24 and many bytes past it, tiny (8-byte) and maximal (MAX_BATCH_SIZE-1..BLOCK_SIZE) batches; every truncation of small files; every cut within +-64 (thorough +-96) bytes of every frame/header/padding/block boundary near the block boundary of >=1 MiB files; header/length/padding mutations of small files (reader correspondence only); 2..8 threads through ConcurrentLogBuilder on a real file with fsync() callers interleaved, plus two directed schedules (one or two appends, then an fsync() caller, queued behind an fsync leader held inside fdatasync); durability at return observed by an in-process fdatasync probe in every run and by strace in some. Non-trivial = a sequence of >= 2 appends, any boundary/truncation/mutation case, any concurrent run; distinct by request text (concurrent runs: by plan, since the grouping into frames is schedule dependent; counters named conc.sched.* vary between runs of one seed)",
         &[],
     );
 }
